@@ -155,7 +155,7 @@ void h_request_close(void)
 	if (!verif_in.has_child) {
 		__CPROVER_assert(g_treg == 0 && g_kill_calls == 0, "[C19] closing a request whose child has already ended does nothing (no signal)");
 	} else {
-		__CPROVER_assert(v_ch->parent == NULL, "[C19] the child record is detached from the request");
+		__CPROVER_assert(v_ch->parent == NULL, "[C19,C18] the child record is detached from the request -- the link is cut on the record's side, so nothing written later when the child ends goes into the (closed, possibly freed) request");
 		__CPROVER_assert(g_treg == 1 && g_treg_arg == &v_ch->signal_timer && v_ch->num_kills == 0, "[C19] the signalling timer is started, counting from zero");
 		__CPROVER_assert(v_ch->signal_timer.handler == iv_popen_running_child_timer && v_ch->signal_timer.cookie == v_ch, "[C19] wired to the signalling step of this child");
 		__CPROVER_assert(v_ch->signal_timer.expires.tv_sec == v_now.tv_sec && v_ch->signal_timer.expires.tv_nsec == v_now.tv_nsec, "[C19] first signal at once");
